@@ -319,3 +319,69 @@ def run(R):
     R.analysed["push_observations"] = len(pushes)
     R.analysed["unsupported"] = S.unsupported[:10]
     R.floor("push observations", len(pushes), 2)
+    clause_padding_partitions(R)
+
+
+def clause_padding_partitions(R):
+    """(4b) padding, semantically: decompress(x, 1) is interpreted on partitioned ABSTRACT inputs built with a known-bits
+    domain: byte 0 is any byte (sign + 7 low bits), byte 1 has `h` known zero bits, the terminator bit, and exactly one
+    further bit known to be 1 (all other bits unknown) — for every h and every position of that bit the union of the
+    partitions is the set of all inputs whose padding inside the terminator's byte is not all-zero; `Some` must be
+    unreachable in each. Likewise with a clean byte 1 and a following byte in [1, 255]. Positive control: with all padding
+    known zero `Some` is reachable. Both with the terminator's byte being the last byte of the buffer and not."""
+    S = Session()
+    ctx = S.ctx
+    ctx.hooks["may_panic"] = lambda inst: False
+    dec = S.find("encoding::decompress")
+    ctx.hooks["unroll"] = lambda fr, h: 9 if fr.inst is dec else 0      # the bit-level padding scan has at most 7 trips: keep them apart
+    u8, usz = S.ty("u8"), ctx.usize_ty()
+    nrun = 0
+
+    def run_case(b1_mask, b1_val, b1_itv, tail):
+        """tail: list of (lo, hi) for the bytes after byte 1"""
+        nonlocal nrun
+        nrun += 1
+        st = St()
+        b0 = ctx.mk_int(st, 0, 255, u8, taint=True)
+        b1 = ctx.mk_int(st, b1_itv[0], b1_itv[1], u8, taint=True)
+        st.prov[b1.vid] = ("kbits", (), (b1_mask, b1_val))
+        hd = {0: b0, 1: b1}
+        for i, (lo, hi) in enumerate(tail):
+            hd[2 + i] = ctx.mk_int(st, lo, hi, u8, taint=True)
+        x = S.cell(st, "x", Sq(ctx.top_int(st, u8, taint=True), ctx.const_int(st, len(hd), usz), hd))
+        outs = S.run(dec, [x, ctx.const_int(st, 1, usz)], st)
+        return any(type(r) is En and 1 in r.vs for r, _ in outs), len(outs)
+    bad = []
+    controls = 0
+    for tail in ([], [(0, 0)]):
+        where = "terminator in the last byte" if not tail else "terminator's byte followed by a zero byte"
+        for h in range(0, 8):
+            term = 1 << (7 - h)
+            zeros_before = ((1 << h) - 1) << (8 - h)          # the h bits before the terminator: known 0
+            # positive control: all padding known zero
+            some, n = run_case(0xFF, term, (term, term), tail)
+            if some:
+                controls += 1
+            else:
+                bad.append(f"[{where}, h={h}] a clean encoding is rejected (control)")
+            for k in range(h + 1, 8):
+                pad = 1 << (7 - k)
+                mask = zeros_before | term | pad
+                val = term | pad
+                lo = term | pad
+                hi = term | ((1 << (7 - h)) - 1)
+                some, n = run_case(mask, val, (lo, hi), tail)
+                if some:
+                    bad.append(f"[{where}] terminator after {h} zero(s), padding bit {k} of that byte set: `Some` is reachable")
+    for h in range(0, 8):
+        term = 1 << (7 - h)
+        for tail in ([(1, 255)], [(0, 0), (1, 255)], [(1, 255), (0, 0)]):
+            some, n = run_case(0xFF, term, (term, term), tail)
+            if some:
+                bad.append(f"terminator after {h} zero(s), clean byte, following bytes {tail}: `Some` is reachable")
+    R.check(not bad, "C07-padding", "decompress(x, 1): padding partitions (known-bits domain)",
+            f"`Some` is unreachable in every partition with a set padding bit ({nrun} abstract runs; {controls} clean controls reach `Some`)",
+            f"{len(bad)} partition(s) accept set padding bits, e.g. {bad[:2]}", key="padding-partitions", data={"bad": bad[:10]})
+    R.floor("padding partitions run", nrun, 96)
+    R.floor("clean controls reaching Some", controls, 16)
+    R.analysed.setdefault("unsupported", []).extend(S.unsupported[:5])
